@@ -287,9 +287,18 @@ def run_cs_property(prop, tier, campaigns, level="exploration", assumptions=(), 
     t0 = time.time()
     outdir = os.path.join(os.environ.get("VERIF_RUNS_DIR") or os.path.join(VERIF, "build", "runs"), prop)
     os.makedirs(outdir, exist_ok=True)
+    skipped = []
     for c in campaigns:
-        c.run(tier, outdir)
+        try:
+            c.run(tier, outdir)
+        except Exception as e:  # a sanitizer-based extra campaign that cannot be built or run here is reported, never a verdict
+            if not getattr(c, "optional", False):
+                raise
+            c.summary = None
+            skipped.append("NOTE: optional campaign %s/%s not run: %s" % (c.module, c.libcfg, str(e).strip().splitlines()[0][:200]))
+    campaigns = [c for c in campaigns if c.summary is not None]
     known_hits, new, lines = triage(prop, campaigns, dev=dev)
+    lines = skipped + lines
     # regression tier: saved cases of fixed/open findings
     hcache = {}
 
